@@ -846,8 +846,10 @@ func c03Shapes(root ast.Node, envT reflect.Type) []string {
 				found["C03-index-key-type"] = true
 			}
 		case *ast.ConditionalNode:
+			// exactly what the pinned ConditionalNode does: the type of the typed branch when the other one has no
+			// type (nil), t1 when t1 is assignable to a different t2 (e.g. t2 = interface{})
 			t1, t2 := x.Exp1.Type(), x.Exp2.Type()
-			if c03Static(x.Type()) && t1 != t2 {
+			if c03Static(x.Type()) && t1 != t2 && ((t1 == nil) != (t2 == nil) || (t1 != nil && t2 != nil && t1.AssignableTo(t2))) {
 				found["C03-cond-branch-type"] = true
 			}
 		case *ast.IndexNode:
